@@ -25,12 +25,23 @@ REQUIRED = {"quick": {"C01.file": 250, "C01.read": 1200, "C01.header": 500},
 WROUTES = ["sfile.write", "SFile.write", "io.write", "Recfile.write", "recfile.write"]
 
 
+BOUNDARIES = [512, 1024, 2048, 4096, 8192, 12288, 16384, 65536]
+
+
 def cases(seed, tier):
     n = 320 if tier == "quick" else 6400
     rng = np.random.default_rng([seed, 1])
     for i in range(n):
         yield {"family": ["dtype-zoo", "headers", "rows", "layout"][i % 4], "wroute": WROUTES[(i // 4) % 5],
                "sub": int(rng.integers(0, 2**31))}
+    # header lengths swept across the block sizes a buffered reader might use
+    reps = 1 if tier == "quick" else 6
+    for r in range(reps):
+        for B in BOUNDARIES:
+            for mode in ("pad-string", "wide-table"):
+                if mode == "wide-table" and B > 16384:
+                    continue
+                yield {"family": "header-size", "boundary": B, "mode": mode, "wroute": "sfile.write", "sub": int(rng.integers(0, 2**31))}
 
 
 def install():
@@ -56,10 +67,96 @@ def _key_for(layout, raw, start):
     return None
 
 
+def run_header_size(case):
+    """the ascii header is made to end just before, on and just after a block boundary: 24 consecutive lengths"""
+    from esutil import sfile
+    import esutil.io as eio
+    rng = np.random.default_rng(case["sub"])
+    B, mode = case["boundary"], case["mode"]
+    d = os.environ.get("VERIF_CASEDIR", ".")
+    path = os.path.join(d, "c01_%d.rec" % case["_i"])
+
+    def build(k):
+        """k = size parameter -> (table, header)"""
+        if mode == "pad-string":
+            t = np.zeros(3, dtype=[("END", "<i4"), ("x", ">f8"), ("TREND", "S5")])
+            t["END"] = [1, -2, 3]
+            t["x"] = [0.5, np.nan, -np.inf]
+            t["TREND"] = [b"END", b"", b"a\nb"]
+            return t, {"pad": "p" * k, "END": "SIZE = 3", "n": k}
+        nf = k // 8 + 1
+        names = ["f%03dEND" % i for i in range(nf - 1)] + ["z" + "q" * (k % 8)]
+        t = np.zeros(2, dtype=[(nm, "<i2") for nm in names])
+        t[names[0]] = [7, -7]
+        t[names[-1]] = [1, 2]
+        return t, None
+
+    def endpos(k):
+        t, h = build(k)
+        sfile.write(path, t, header=h)
+        raw = open(path, "rb").read()
+        st = rs.data_start(raw)
+        return (st - 6) if st else None        # offset of the newline that begins the END line
+
+    # find a size whose END line lands a little before the boundary, then walk across it
+    k = max(1, (B - 200) // (1 if mode == "pad-string" else 3))
+    for _ in range(40):
+        p0 = endpos(k)
+        if p0 is None:
+            break
+        if B - 40 <= p0 <= B - 14:
+            break
+        k = max(1, k + int((B - 26 - p0) / (1.05 if mode == "pad-string" else 2.6)))
+    seen = []
+    for kk in range(k, k + (48 if mode == "pad-string" else 110)):
+        t, h = build(kk)
+        wit = {"mode": mode, "boundary": B, "size_parameter": kk}
+        try:
+            sfile.write(path, t, header=h)
+        except Exception as e:
+            COL.violation("C01.file", "sfile.write raised %s: %s" % (type(e).__name__, str(e)[:160]), wit)
+            continue
+        raw = open(path, "rb").read()
+        st = rs.data_start(raw)
+        if st is None or raw[st:] != t.tobytes():
+            COL.violation("C01.file", "bytes after the END line differ from the array buffer", wit)
+            continue
+        pos = st - 6
+        if abs(pos - B) > 24:
+            if pos > B + 24:
+                break
+            continue
+        seen.append(pos - B)
+        wit["end_line_offset"] = pos
+        COL.ok("C01.file", ("header-size", mode, B, pos - B))
+        for name, fn in (("sfile.read", lambda: sfile.read(path, header=True)), ("io.read", lambda: eio.read(path, header=True)),
+                         ("SFile[:]", lambda: (_with(sfile.SFile(path), lambda sf: sf[:]), sfile.read_header(path)))):
+            res, e = probe.attempt(fn)
+            if e is not None:
+                COL.violation("C01.read", "%s raised %s: %s (END line at byte %d, block boundary %d)" % (name, type(e).__name__, str(e)[:120], pos, B), wit)
+                continue
+            arr, hdr = res
+            if not isinstance(arr, np.ndarray) or not rs.same_dtype(arr.dtype, t.dtype) or arr.tobytes() != t.tobytes():
+                COL.violation("C01.read", "%s: table read back differs (END line at byte %d, block boundary %d)" % (name, pos, B), wit)
+            else:
+                COL.ok("C01.read", ("header-size", name, mode, B, pos - B))
+            _judge_header(name, hdr, h, t, wit, ("header-size", mode, B))
+    I = COL.info.setdefault("end_line_offsets_relative_to_block_boundary", [])
+    for o in seen:
+        if o not in I and len(I) < 200:
+            I.append(o)
+    try:
+        os.unlink(path)
+    except OSError:
+        pass
+
+
 def run_case(case):
     import esutil
     from esutil import sfile, recfile
     import esutil.io as eio
+    if case["family"] == "header-size":
+        return run_header_size(case)
     rng = np.random.default_rng(case["sub"])
     fam, wroute = case["family"], case["wroute"]
     nrows = None
